@@ -68,6 +68,10 @@ type Config struct {
 	// TZOffsetMin: the process's local time zone (time.Local) as minutes east of UTC.
 	TZOffsetMin int `json:"tz_offset_min,omitempty"`
 
+	// TTY: which of stdin/stdout/stderr look like a terminal (character device) to
+	// Stat(): bit 0 stdin, bit 1 stdout, bit 2 stderr.
+	TTY int `json:"tty,omitempty"`
+
 	// HeapBias is added to the heap figures runtime.ReadMemStats reports (a machine
 	// with more or less memory in use).
 	HeapBias uint64 `json:"heap_bias,omitempty"`
@@ -279,6 +283,16 @@ func (s *Stream) WriteString(p string) (int, error) {
 	return len(p), nil
 }
 func (s *Stream) Sync() error  { return nil }
+
+// Stat: a character device if the schedule says this stream is a terminal, else a pipe.
+func (s *Stream) Stat() (fs.FileInfo, error) {
+	record("SRC", "isatty:"+s.name, 0)
+	mode := fs.ModeNamedPipe | 0o600
+	if cfg.TTY&(1<<s.fd) != 0 {
+		mode = fs.ModeDevice | fs.ModeCharDevice | 0o620
+	}
+	return simInfo{name: s.name, mode: mode}, nil
+}
 func (s *Stream) Close() error { return nil }
 func (s *Stream) Fd() uintptr  { return s.fd }
 func (s *Stream) Name() string { return s.name }
@@ -288,6 +302,14 @@ type InStream struct{}
 func (*InStream) Fd() uintptr  { return 0 }
 func (*InStream) Name() string { return "/dev/stdin" }
 func (*InStream) Close() error { return nil }
+func (*InStream) Stat() (fs.FileInfo, error) {
+	record("SRC", "isatty:/dev/stdin", 0)
+	mode := fs.ModeNamedPipe | 0o600
+	if cfg.TTY&1 != 0 {
+		mode = fs.ModeDevice | fs.ModeCharDevice | 0o620
+	}
+	return simInfo{name: "/dev/stdin", mode: mode}, nil
+}
 
 func (*InStream) Read(p []byte) (int, error) {
 	reads++
@@ -425,11 +447,15 @@ type simInfo struct {
 	name string
 	size int64
 	dir  bool
+	mode fs.FileMode // if non-zero, overrides the default file / directory mode
 }
 
 func (i simInfo) Name() string { return i.name }
 func (i simInfo) Size() int64  { return i.size }
 func (i simInfo) Mode() fs.FileMode {
+	if i.mode != 0 {
+		return i.mode
+	}
 	if i.dir {
 		return fs.ModeDir | 0o755
 	}
